@@ -184,7 +184,7 @@ def prepare(work, tier, seed):
 
 def random_cases(rng, tier):
     """Problems beyond the enumerated universe: up to 4 items, 4 classes, 1/4 and 1/8 lattices, any clip partition."""
-    want = 500 if tier == "quick" else 6000
+    want = 500 if tier == "quick" else 4000
     made = 0
     while made < want:
         task = rng.choice(["cc", "cml", "sec", "sed"])
